@@ -175,9 +175,16 @@ package netpoll
 
 // a dial returns a usable connection or an error, never both and never neither
 //@ func (*dialer).dialTCP
-//@   trusted body not verified (resolver calls, composite literals of struct arrays); its result pair comes from DialTCP or is (nil, error)
+//@   property C14
+//@   requires ctx != nil
+//@   assume cblist() && mbase(pollmanager) && (pollmanager.status == 2 ==> mgood(pollmanager)) && pollmanager.status != 1 && errMissingAddress != nil
 //@   ensures (err == nil) == (connection != nil)
-//@   modifies world
+//@   modifies world, fdopen, closecnt, FDOperator.owned, operatorCache.ocl, operatorCache.ofl, runFailed, wwDetached, ocBase, netFD.dialing, sockFd, sockClosed, sockOpen, nonblock, key:netpoll.connection.setup, key:netpoll.connection.operator, locker.heldP, locker.heldC, locker.sealed_heldP, prepDone, prepRegistered, prepOK, cbRuns, dlOpened, dlClosed, dlKept, netFD.closed
+//@   loop 1 invariant -1 <= rangeindex && tcpAddr != nil && ctx != nil
+//@   loop 1 invariant cblist() && mbase(pollmanager) && (pollmanager.status == 2 ==> mgood(pollmanager)) && pollmanager.status != 1 && errMissingAddress != nil
+//@   note the poller pool and the callback list keep their invariants across calls that do not change them (proved for the functions that do: C18, C05)
+//@   ghost after call DialTCP#1: assume cblist() && mbase(pollmanager) && (pollmanager.status == 2 ==> mgood(pollmanager)) && pollmanager.status != 1 && errMissingAddress != nil
+//@   ghost after call DialTCP#2: assume cblist() && mbase(pollmanager) && (pollmanager.status == 2 ==> mgood(pollmanager)) && pollmanager.status != 1 && errMissingAddress != nil
 //@ func unixSocket
 //@   property C14
 //@   requires ctx != nil
